@@ -488,6 +488,18 @@ func reopen(dir string) (o reopenOutcome) {
 	// life goes on after the recovery: two more mutations (net effect: none), a clean stop and
 	// another open. A log that was only just readable must stay readable once it has grown.
 	ctx := context.Background()
+	// first, mutations that carry an EMPTY value (encoded with the field absent): a Put of "" on every
+	// key that holds no value changes nothing — unless replay decodes it on top of what an earlier
+	// entry left in its scratch space. Then a put+delete of another key (net effect: none).
+	for _, k := range keys {
+		if v, gerr := kv.Get(ctx, []byte(k)); gerr == nil && len(v) == 0 {
+			if perr := kv.Put(ctx, []byte(k), []byte{}); perr != nil {
+				kv.Stop()
+				o.err2 = fmt.Errorf("mutations after recovery failed: Put(%s, empty): %v", k, perr)
+				return
+			}
+		}
+	}
 	e1 := kv.Put(ctx, []byte("c20-after-recovery"), []byte("x"))
 	e2 := kv.Delete(ctx, []byte("c20-after-recovery"))
 	kv.Stop()
